@@ -1876,8 +1876,8 @@ int FMesher::DoPeriodicBCTriangulation(string PathName)
 		//   if antiperiodic, n1 should be an even number
 		//   otherwise, throw error message, clean up, and return
 
-		InnerRing.reserve(n0);
-		OuterRing.reserve(n0);
+		InnerRing.resize(n0);
+		OuterRing.resize(n0);
 
 		// map each bdry point onto points on the ring;
 		int kk;
